@@ -123,6 +123,7 @@ fn main() {
         "replay" => orch::replay_main(&args[2..]),
         "selfcheck" => orch::selfcheck_main(&args[2..]),
         "gen" => orch::gen_main(&args[2..]),
+        "c09-child" => c09::child_main(),
         "minimise" => {
             let v: serde_json::Value = serde_json::from_str(&std::fs::read_to_string(&args[2]).unwrap()).unwrap();
             let m = orch::minimise(v, 60);
